@@ -69,6 +69,7 @@ struct Live {
     RegisterTable t;
     RegisterArea *areas; RegisterEntry *entries;
     std::vector<uint16_t *> storage;   // per area (memory of ->mem or of the callback store)
+    std::vector<uint16_t *> decoys;
     explicit Live(const TableD &td, uint16_t prefill = 0xbeef) : d(&td) {
         size_t na = td.areas.size(), ne = td.regs.size();
         areas = (RegisterArea *)calloc(na + 1, sizeof(RegisterArea));
@@ -83,7 +84,12 @@ struct Live {
             ra.flags = (uint16_t)((a.readable ? REG_AF_READABLE : 0) | (a.writeable ? REG_AF_WRITEABLE : 0) | (a.skip_defaults ? REG_AF_SKIP_DEFAULTS : 0));
             ra.base = a.base; ra.size = a.size;
             if (a.membacked) { ra.read = reg_mem_read; ra.write = a.has_write ? reg_mem_write : nullptr; ra.mem = mem; }
-            else { ra.read = vp_cb_read; ra.write = a.has_write ? vp_cb_write : nullptr; ra.mem = nullptr; cbstores().push_back({&ra, mem, a.size}); }
+            else {
+                ra.read = vp_cb_read; ra.write = a.has_write ? vp_cb_write : nullptr; ra.mem = nullptr; cbstores().push_back({&ra, mem, a.size});
+                // every other callback-backed area also carries a `mem` pointer of its own (a shadow copy the application keeps, holding other
+                // content): the area's words are what its callbacks say, the library has no business reading them from anywhere else
+                if ((a.base ^ a.size) & 1) { uint16_t *decoy = (uint16_t *)malloc((a.size ? a.size : 1) * sizeof(uint16_t)); for (uint32_t k = 0; k < a.size; k++) decoy[k] = (uint16_t)(0x7e00 + 3 * k); decoys.push_back(decoy); ra.mem = decoy; }
+            }
         }
         for (size_t i = 0; i < ne; i++) {
             const RegD &r = td.regs[i];
@@ -104,7 +110,7 @@ struct Live {
         register_make_bigendian(&t, td.big);
     }
     Live(const Live &) = delete;
-    ~Live() { for (auto *m : storage) free(m); free(areas); free(entries); cbstores().clear(); }
+    ~Live() { for (auto *m : storage) free(m); for (auto *m : decoys) free(m); free(areas); free(entries); cbstores().clear(); }
     RegisterInit init() { return register_init(&t); }
     // compare all storage with the model; returns -1 or the first differing address
     long diff(const rm::Space &m) const {
